@@ -1627,6 +1627,18 @@ def model(ex, st, c, args):
         if isinstance(src, VecV):
             v.items.extend(src.items)
             return mkunit()
+        if isinstance(src, OwnIter):
+            v.items.extend(src.items[src.pos:])
+            return mkunit()
+        if isinstance(src, IterV):
+            v.items.extend(Ref(src.ref.cell, list(src.ref.path) + [('index', i)]) for i in range(src.pos, src.end))
+            return mkunit()
+        if isinstance(src, (AdaptV, PeekV, CharsV)):
+            # a lazy adaptor: drain it through its own next(), then append
+            cellv = st.new_cell(src)
+            drained = ex.subcall(st, synth_static(ex, '__drain'), [Ref(cellv, [])])
+            v.items.extend(drained.items)
+            return mkunit()
         raise Unsupported('extend with %r' % (src,))
     if c == 'std::iter::empty':
         return OwnIter([])
